@@ -7,6 +7,7 @@ OpenType formulas (DESIGN 4.6 for CFF extrema).
 Enumerated sub-space: all advance sequences of length <= 5 (thorough: 6) over {0, a, b} with
 outline/empty patterns at the ends - numberOfHMetrics.
 """
+import copy
 import io
 import itertools
 import math
@@ -173,7 +174,20 @@ def gen(rng, idx, tier):
                 opts["roundTolerance"] = rng.choice([0, 0.25])
     else:
         opts["flattenComponents"] = rng.random() < 0.3
+    instr = None
+    if fmt == "ttf" and stratum == "default" and rng.random() < 0.15:
+        # TrueType glyph programs (public.truetype.instructions) on simple AND composite glyphs;
+        # each needs the hash of the compiled glyph, which run() takes from a first compile
+        names_ = [g["name"] for g in glyphs if g["name"] != ".notdef" and (g["contours"] or g["components"])]
+        if names_:
+            instr = {n: rng.choice([1, 2, 3, 5, 9, 14]) for n in rng.sample(
+                names_, min(len(names_), rng.randint(1, 4)))}
+            comps_ = [g["name"] for g in glyphs if g["components"] and not g["contours"]
+                      and g["name"] != ".notdef"]
+            if comps_ and rng.random() < 0.7:
+                instr[rng.choice(comps_)] = max(instr.values()) + rng.choice([1, 4])
     return {"stratum": stratum, "fmt": fmt, "lib": rng.choice(["defcon", "ufoLib2"]),
+            "instructions": instr,
             "ufo": {"glyphs": glyphs, "info": info, "lib": lib}, "opts": opts,
             # glyph names are dropped (post format 3) only when the lib keys decide, i.e. when the
             # useProductionNames argument is not given
@@ -408,12 +422,33 @@ def run(case):
         counters[k] = counters.get(k, 0) + n
 
     spec = case["ufo"]
-    font = build_ufo(spec, case["lib"])
     fmt = case["fmt"]
-    violations = []
     kw = dict(case["opts"])
     if case.get("names_arg", True):
         kw["useProductionNames"] = False
+    if case.get("instructions"):
+        # first compile: the glyph hashes the instruction compiler will ask for
+        try:
+            from functools import partial
+            from fontTools.misc.fixedTools import floatToFixedToFloat
+            from fontTools.pens.hashPointPen import HashPointPen
+            from fontTools.pens.roundingPen import RoundingPointPen
+            t0 = ufo2ft.compileTTF(build_ufo(spec, case["lib"]), **kw)
+            spec = copy.deepcopy(spec)
+            for g in spec["glyphs"]:
+                k = case["instructions"].get(g["name"])
+                if k and g["name"] in t0["glyf"].keys():
+                    hp = HashPointPen(t0["hmtx"][g["name"]][0], t0.getGlyphSet())
+                    t0["glyf"][g["name"]].drawPoints(RoundingPointPen(
+                        hp, transformRoundFunc=partial(floatToFixedToFloat, precisionBits=14)), t0["glyf"])
+                    g.setdefault("lib", {})["public.truetype.instructions"] = {
+                        "formatVersion": "1", "id": hp.hash, "assembly": "\n".join(["SVTCA[0]"] * k)}
+            bump("fonts_with_glyph_programs")
+        except Exception:  # noqa: BLE001
+            return {"status": "inconclusive", "counters": {"instruction_setup_failed": 1},
+                    "note": traceback.format_exc()[-800:]}
+    font = build_ufo(spec, case["lib"])
+    violations = []
     src_names = [g["name"] for g in spec["glyphs"]]
     from vf.props.c03 import ref_order
     src_order = ref_order(src_names, list(font.glyphOrder))
@@ -715,6 +750,16 @@ def run(case):
         violations.append({"mech": "maxp_numGlyphs", "detail": {"stored": tt["maxp"].numGlyphs}})
     if is_tt:
         violations.extend(judge_maxp(tt, bump))
+        sizes = [len(g_.program.getBytecode()) for g_ in (tt["glyf"][n_] for n_ in tt.getGlyphOrder())
+                 if hasattr(g_, "program") and len(g_.program.getBytecode())]
+        if sizes:
+            bump("glyph_programs_in_font", len(sizes))
+            if any(tt["glyf"][n_].isComposite() and hasattr(tt["glyf"][n_], "program")
+                   and len(tt["glyf"][n_].program.getBytecode()) == max(sizes) for n_ in tt.getGlyphOrder()):
+                bump("largest_glyph_program_on_a_composite")
+        if case.get("instructions") and tt["maxp"].maxSizeOfInstructions != max(sizes, default=0):
+            violations.append({"mech": "maxp_maxSizeOfInstructions", "detail": {
+                "stored": tt["maxp"].maxSizeOfInstructions, "recomputed": max(sizes, default=0)}})
     post = tt["post"]
     if "CFF " not in tt:
         if keep and post.formatType != 2.0:
